@@ -48,7 +48,8 @@ type c18Batch struct {
 	StopAtMs  int    `json:"stop_after_ms"`
 	Rows      int    `json:"rows_per_producer"`
 	SchedSeed int64  `json:"sched_seed"`
-	Mode      string `json:"mode"` // chaos | survival | flush
+	Mode      string `json:"mode"`             // chaos | survival | flush
+	BlockMs   int    `json:"block_timeout_ms"` // block strategy: 0 = wait without timeout
 }
 
 func genC18(ref core.CaseRef, r *rand.Rand) *c18Batch {
@@ -62,6 +63,13 @@ func genC18(ref core.CaseRef, r *rand.Rand) *c18Batch {
 	b.Rows = 200 + r.Intn(1500)
 	b.SchedSeed = r.Int63()
 	b.Mode = "chaos"
+	if b.Strategy == "block" {
+		b.BlockMs = pick(r, []int{0, 0, 2})
+		if b.BlockMs == 0 && b.Sink == "reentrant" {
+			// a sink that re-emits into a full bounded queue under block-without-timeout cannot be satisfied
+			b.BlockMs = 2
+		}
+	}
 	if ref.Index%11 == 7 || q.Name == "direct_vpanic" {
 		b.Mode = "survival"
 		b.Strategy = "block"
@@ -175,7 +183,7 @@ func childC18(ctx *core.Ctx, raw []byte) {
 		"tumbling.": 0.02, "sliding.": 0.02, "session.": 0.02, "counting.": 0.01, "send.before_rlock": 0.01}, MaxSleep: 500 * time.Microsecond})
 	sched.Trace(true)
 	s, err := eng.New(b.SQL, eng.Opts{Strategy: b.Strategy, DataChan: 4, ResultChan: 2, WindowOut: 2, MaxBuffer: 64, SinkPool: 2, SinkWorkers: 2,
-		BlockTimeout: map[bool]time.Duration{true: 2 * time.Millisecond, false: 0}[b.Strategy == "block" && b.Mode == "chaos"]})
+		BlockTimeout: time.Duration(b.BlockMs) * time.Millisecond})
 	if err != nil {
 		viol("lifecycle.execute_error", err.Error())
 		return
@@ -234,6 +242,12 @@ func childC18(ctx *core.Ctx, raw []byte) {
 	if b.Sink == "panicking" || b.Sink == "reentrant" {
 		s.AddSyncSink(mkSink(b.Sink, "sync-"+b.Sink))
 	}
+	if b.Sink == "slow" {
+		// several slow synchronous sinks: an EmitSync caught by Stop between two of them must still be joined
+		s.AddSyncSink(mkSink("slow", "sync-slow-1"))
+		s.AddSyncSink(mkSink("slow", "sync-slow-2"))
+		s.AddSyncSink(mkSink("fast", "sync-after-slow"))
+	}
 
 	mkRow := func(p, j int) Row {
 		v := (p*7+j)%50 + 1
@@ -258,7 +272,7 @@ func childC18(ctx *core.Ctx, raw []byte) {
 				}()
 				for j := 0; j < b.Rows; j++ {
 					atomic.AddInt64(&inEmit, 1)
-					if isDirect && p == 0 && j%3 == 0 {
+					if isDirect && (p == 0 && j%3 == 0 || p == 1 && j%2 == 0) {
 						_, _ = s.EmitSync(mkRow(p, j))
 					} else {
 						s.Emit(mkRow(p, j))
@@ -336,7 +350,17 @@ func childC18(ctx *core.Ctx, raw []byte) {
 		if b.Sink == "blocking" {
 			doRelease()
 		}
-		wg.Wait()
+		// Stop returned: every API call still in flight must come back (a producer blocked by
+		// back-pressure is released by Stop).  Microseconds are expected; 30 s is the watchdog.
+		allBack := make(chan struct{})
+		go func() { wg.Wait(); close(allBack) }()
+		select {
+		case <-allBack:
+		case <-time.After(30 * time.Second):
+			viol("lifecycle.call_blocked_after_stop", fmt.Sprintf("30 s after Stop returned, Emit/EmitSync/GetStats/AddSink calls were still blocked (calls inside Emit: %d; strategy %s, block timeout %dms)", atomic.LoadInt64(&inEmit), b.Strategy, b.BlockMs))
+			doRelease()
+			return
+		}
 		ctx.Max("max.stop_duration_ms", max64(stopDur[0].Milliseconds(), stopDur[1].Milliseconds()))
 		// Emit after Stop: silent no-op
 		callsBefore := atomic.LoadInt64(&sinkCalls)
